@@ -95,12 +95,12 @@ func ruleRawRead(c *Ctx) {
 			n++
 			per[f]++
 			c.touch(f)
-			c.check(crcVerifiedDecoder(c, f), fnName(f), fmt.Sprintf("segment read #%d happens inside a CRC-verifying decoder", per[f]), c.P.ipos(ci), "",
+			c.check(crcVerifiedDecoder(c, f) || rawReadHelperOf(c, f, 0), fnName(f), fmt.Sprintf("segment read #%d happens inside a CRC-verifying decoder", per[f]), c.P.ipos(ci), "",
 				"segment bytes are read by a function that can return them without the stored and recomputed CRC having compared equal: a bit flipped on disk is served as data")
 		})
 	}
 	c.Sites += n
-	c.minInstances("RWManager.ReadAt call sites", n, 4)
+	c.minInstances("RWManager.ReadAt call sites", n, 2)
 }
 
 // ---------------------------------------------------------------------------
@@ -227,4 +227,71 @@ func ruleRWBounds(c *Ctx) {
 	}
 	c.Sites += n
 	c.minInstances("RWManager.ReadAt implementations", n, 2)
+}
+
+// rawReadHelperOf: f is an unexported helper all of whose callers are CRC-verifying decoders (or such
+// helpers themselves): the bytes it reads are returned to code that verifies them before returning.
+func rawReadHelperOf(c *Ctx, f *ssa.Function, depth int) bool {
+	if depth > 2 || f.Object() == nil || f.Object().Exported() {
+		return false
+	}
+	callers := c.P.CallersOf(f)
+	if len(callers) == 0 {
+		return false
+	}
+	for _, s := range callers {
+		g := s.Parent()
+		if g == f {
+			continue
+		}
+		if !crcVerifiedDecoder(c, g) && !rawReadHelperOf(c, g, depth+1) {
+			return false
+		}
+	}
+	return true
+}
+
+// readHelperParams recognises a payload-read helper: it allocates make([]byte, size) from one parameter,
+// reads it with ReadAt at an offset that is another parameter, and returns that buffer as its first
+// result on every path where the result is not nil. Returns the indexes of the offset and size parameters.
+func readHelperParams(f *ssa.Function) (offIdx, sizeIdx int, ok bool) {
+	if f.Signature.Results().Len() < 1 {
+		return 0, 0, false
+	}
+	var buf *ssa.MakeSlice
+	offIdx, sizeIdx = -1, -1
+	n := 0
+	calls(f, func(ci ssa.CallInstruction) {
+		cc := ci.Common()
+		isRead := calleeIs(cc, pkgOS, "File", "ReadAt") || (cc.IsInvoke() && cc.Method.Name() == "ReadAt" && isRWManager(cc.Value.Type()))
+		if !isRead {
+			return
+		}
+		n++
+		args := argsOf(cc)
+		ms, isMS := args[0].(*ssa.MakeSlice)
+		if !isMS {
+			return
+		}
+		ps, ok1 := stripConv(resolve1(ms.Len)).(*ssa.Parameter)
+		po, ok2 := stripConv(resolve1(args[1])).(*ssa.Parameter)
+		if ok1 && ok2 {
+			buf = ms
+			sizeIdx, offIdx = paramIndex(f, ps), paramIndex(f, po)
+		}
+	})
+	if n != 1 || buf == nil {
+		return 0, 0, false
+	}
+	for _, r := range returnsOf(f) {
+		for _, v := range resolve(r.Results[0]) {
+			if isNilConst(v) {
+				continue
+			}
+			if v != ssa.Value(buf) {
+				return 0, 0, false
+			}
+		}
+	}
+	return offIdx, sizeIdx, true
 }
